@@ -84,6 +84,9 @@ var recipeSites = []Site{
 	{"stream.readChunk.Open.ad", pkgStream, "Reader", "readChunk", "arg:invoke (cipher.AEAD).Open:4", []string{"C05", "C01", "C02"}},
 	{"stream.readChunk.Open#2.nonce", pkgStream, "Reader", "readChunk", "arg:invoke (cipher.AEAD).Open#2:2", []string{"C05", "C01", "C02"}},
 	{"stream.readChunk.Open#2.ad", pkgStream, "Reader", "readChunk", "arg:invoke (cipher.AEAD).Open#2:4", []string{"C05", "C01", "C02"}},
+	{"stream.readChunk.Open.dst", pkgStream, "Reader", "readChunk", "arg:invoke (cipher.AEAD).Open:1", []string{"C05", "C01", "C12"}},
+	{"stream.readChunk.Open.in", pkgStream, "Reader", "readChunk", "arg:invoke (cipher.AEAD).Open:3", []string{"C05", "C01"}},
+	{"stream.Write.copy.dst", pkgStream, "Writer", "Write", "arg:builtin copy:0", []string{"C05", "C01", "C12"}},
 	{"stream.readChunk.ReadFull.buf", pkgStream, "Reader", "readChunk", "arg:io.ReadFull:1", []string{"C05", "C12"}},
 	{"stream.readChunk.ReadFull.src", pkgStream, "Reader", "readChunk", "arg:io.ReadFull:0", []string{"C05", "C12"}},
 	// header
